@@ -23,7 +23,7 @@ Inductive fkind :=
 | K_a | K_aaaa
 | K_nsec | K_opt | K_svcb | K_apl
 | K_names (compress : bool)         (* packDataDomainNames / unpackDataDomainNames(.., rdEnd) *)
-| K_gateway (tyf addrf hostf : string) (compress : bool).  (* pack/unpackIPSECGateway *)
+| K_gateway (tyf addrf hostf : string) (mask : N) (compress : bool).  (* pack/unpackIPSECGateway(.., rr.T & mask, ..) *)
 
 (* pack side: field name (for K_gateway the host field) and kind, in statement order *)
 Definition pfield := (string * fkind)%type.
@@ -39,6 +39,7 @@ Inductive lterm :=
 | L_half (f : string)                      (* l += len(rr.F) / 2 *)
 | L_b64 (f : string)                       (* l += base64.StdEncoding.DecodedLen(len(rr.F)) *)
 | L_b32 (f : string)                       (* l += base32HexNoPadEncoding.DecodedLen(len(rr.F)) *)
+| L_b32text (f : string)                   (* l += len(rr.F) for a base32 text field *)
 | L_name (f : string) (compress : bool)    (* l += domainNameLen(rr.F, off+l, compression, c) *)
 | L_txts (f : string)                      (* for x in rr.F { l += len(x) + 1 } *)
 | L_names (f : string) (compress : bool)   (* for x in rr.F { l += domainNameLen(x, off+l, compression, c) } *)
@@ -46,7 +47,7 @@ Inductive lterm :=
 | L_pairs (f : string)                     (* for x in rr.F { l += 4 + int(x.len()) } *)
 | L_ifnonempty (f : string) (n : N)        (* if len(rr.F) != 0 { l += n } *)
 | L_nsec (f : string)                      (* l += typeBitMapLen(rr.F) *)
-| L_gateway (tyf hostf : string) (v4 v6 host : N).  (* switch rr.T { case v4: +4; case v6: +16; case host: len(rr.H)+1 } *)
+| L_gateway (tyf : string) (mask : N) (hostf : string) (v4 v6 host : N).  (* switch rr.T { case v4: +4; case v6: +16; case host: len(rr.H)+1 } *)
 Record tlen := { ln_name : string; ln_terms : list lterm }.
 
 (* ---- ztypes.go / edns.go / svcb.go: copy() actions per struct field ---- *)
@@ -82,7 +83,7 @@ Inductive dcmp :=
 | D_each_equals (f : string)              (* !r1.F[i].equals(&r2.F[i]) *)
 | D_ip_equal (f : string)                 (* !r1.F.Equal(r2.F) *)
 | D_pairs (f : string)                    (* !areSVCBPairArraysEqual *)
-| D_gateway (tyf addrf hostf : string)
+| D_gateway (tyf : string) (mask : N) (addrf hostf : string)
 | D_embedded (t : string)                 (* r1.T.isDuplicate(&r2.T) *)
 | D_const (b : bool)                      (* return true / return false *)
 | D_other (what : string).
